@@ -7,6 +7,9 @@ import RsMatterVerif.Lemmas.CodecBtpBdx
 import RsMatterVerif.Lemmas.CodecQr
 import RsMatterVerif.Lemmas.CodecCheckIn
 import RsMatterVerif.Lemmas.CodecBleAdv
+import RsMatterVerif.Lemmas.CodecDerRead -- D16d
+import RsMatterVerif.Lemmas.CodecCmsCd -- D16d
+import RsMatterVerif.Lemmas.CodecCmsRound -- D16d
 /-!
 # C17 — headers, onboarding payloads and discovery records decode what was encoded
 
@@ -289,5 +292,165 @@ example : BleAdv.WF { vid := 0xFFF1, pid := 0x8000, disc := 0xF00, additional :=
 theorem ble_adv_parse_total (adv : List Nat) :
     NoPanic (BleAdv.parseAdv adv) ∧ NoPanic (BleAdv.parseServiceData adv) :=
   ⟨BleAdv.parseAdv_np adv, BleAdv.parseServiceData_np adv⟩
+
+/-! ## (D16d) DER reading layer under `attest/cd.rs`, `cert/x509/cert.rs`, `cert/x509/csr.rs` (crate `der` 0.7.10)
+and rs-matter's `cert/der_utils.rs`
+
+`Der.Safe r` = the model's answer `r` is a value or a proper error: neither `E.panic` (an index, slice,
+checked subtraction, `debug_assert!` or `copy_from_slice` of the Rust code would panic) nor `E.endless`
+(a loop ran out of fuel). `Der.Within input v` = `v` is a range `[off, off + |v|)` of `input`. -/
+
+open Codec.Der in
+/-- **the reading primitives are total and never panic**, on every well-formed reader (`Rdr.WF`: the
+invariant that `SliceReader::new` / `NestedReader::new` establish and every read preserves), for
+arbitrary bytes (no range assumption on the "bytes") and any requested length -/
+theorem der_reader_total (r : Rdr) (h : r.WF) (n : Nat) :
+    Safe (r.readSlice n) ∧ Safe r.readByte ∧ Safe (lengthDecode r) ∧ Safe (headerDecode r) ∧
+    Safe (anyDecode r) ∧ Safe r.finish ∧ Safe (nestedNew r n) :=
+  ⟨readSlice_safe h n, readByte_safe h, lengthDecode_safe h, headerDecode_safe h, anyDecode_safe h,
+   finish_safe h, nestedNew_safe h n⟩
+example : ∃ r, Codec.Der.Rdr.new [0x30, 0x00] = .ok r ∧ r.WF :=
+  ⟨.slice [0x30, 0x00] 0, rfl, by decide, by decide⟩
+
+open Codec.Der in
+/-- **every slice a read returns is the range `[offset, offset + n)` of the input, inside the input**,
+the reader advances by exactly `n` and stays well formed (same input, same nesting) -/
+theorem der_read_slice_within (r : Rdr) (h : r.WF) (n : Nat) (s : List Nat) (r' : Rdr)
+    (hr : r.readSlice n = .ok (s, r')) :
+    s = (r.input.drop r.offset).take n ∧ s.length = n ∧ r.offset + n ≤ r.input.length ∧
+    r'.offset = r.offset + n ∧ r'.input = r.input ∧ r'.WF ∧ r'.shape = r.shape := by
+  obtain ⟨h1, h2, h3, h4, h5, _, _, h8⟩ := readSlice_spec h hr
+  have := h5.offset_le
+  rw [h3, h4] at this
+  exact ⟨h1, h2, this, h3, h4, h5, h8⟩
+example : (Codec.Der.Rdr.slice [1, 2, 3] 1).readSlice 2 = .ok ([2, 3], .slice [1, 2, 3] 3) := rfl
+
+open Codec.Der in
+/-- **`AnyRef::decode`: the value lies inside the input, at least two octets behind the old offset, and
+the reader moves strictly forward to its end** -/
+theorem der_any_within_and_progress (r : Rdr) (h : r.WF) (tag : Nat) (v : List Nat) (r' : Rdr)
+    (hr : anyDecode r = .ok ((tag, v), r')) :
+    ∃ hl, 2 ≤ hl ∧ v = (r.input.drop (r.offset + hl)).take v.length ∧
+      r.offset + hl + v.length ≤ r.input.length ∧ r'.offset = r.offset + hl + v.length ∧ r'.WF := by
+  obtain ⟨hl, h1, h2, h3, h4⟩ := anyDecode_spec h hr
+  exact ⟨hl, h1, h2, h3, by rw [h4.off]; omega, h4.wf⟩
+example : Codec.Der.anyDecode (.slice [0x02, 0x01, 0x05] 0) = .ok ((2, [5]), .slice [0x02, 0x01, 0x05] 3) := rfl
+
+open Codec.Der in
+/-- **DER is canonical in this reader**: whatever `AnyRef::from_der` accepts is exactly
+`identifier ‖ minimal length octets ‖ value` of what it returns — over-long (non-minimal) lengths, the
+indefinite form, lengths above 256 MiB and trailing bytes are all refused -/
+theorem der_from_der_canonical (bytes : List Nat) (hbytes : ∀ b ∈ bytes, b < 256) (tag : Nat) (v : List Nat)
+    (h : fromDerAny bytes = .ok (tag, v)) : bytes = encTlv tag v :=
+  fromDerAny_canonical hbytes h
+example : Codec.Der.fromDerAny [0x04, 0x02, 0xAA, 0xBB] = .ok (4, [0xAA, 0xBB]) := rfl
+/-- samples of the refusal (tests, not the theorem): non-minimal long form, indefinite form, length-of-length 8 -/
+example : Codec.Der.fromDerAny [0x04, 0x81, 0x01, 0xAA] = .error .length ∧
+    Codec.Der.fromDerAny [0x30, 0x80, 0x00, 0x00] = .error .indefiniteLength ∧
+    Codec.Der.fromDerAny [0x04, 0x88, 0xff, 0xff, 0xff, 0xff, 0xff, 0xff, 0xff, 0xff] = .error .length := ⟨rfl, rfl, rfl⟩
+
+open Codec.Der in
+/-- **round trip of the element layer**: `from_der (encTlv tag v) = (tag, v)` for every tag octet that
+`Tag::try_from` knows and every value whose encoding fits `Length::MAX` -/
+theorem der_from_der_encode (tag : Nat) (v : List Nat) (ht : tagOfByte tag = .ok tag)
+    (hmax : (encTlv tag v).length ≤ MAX_LEN) : fromDerAny (encTlv tag v) = .ok (tag, v) :=
+  fromDerAny_enc ht hmax
+example : Codec.Der.tagOfByte 0x30 = .ok 0x30 ∧ (Codec.Der.encTlv 0x30 [5, 0]).length ≤ Codec.Der.MAX_LEN := ⟨rfl, by decide⟩
+
+open Codec.Der in
+/-- **`Length::decode` inverts the minimal length octets (all five forms) and accepts nothing else** -/
+theorem der_length_roundtrip_and_canonical :
+    (∀ (bytes : List Nat) (pos n : Nat) (rest : List Nat), bytes.drop pos = encLen n ++ rest → n ≤ MAX_LEN →
+      bytes.length ≤ MAX_LEN →
+      lengthDecode (.slice bytes pos) = .ok (n, .slice bytes (pos + (encLen n).length))) ∧
+    (∀ (r : Rdr), r.WF → (∀ b ∈ r.input, b < 256) → ∀ (l : Nat) (r' : Rdr), lengthDecode r = .ok (l, r') →
+      l ≤ MAX_LEN ∧ (r.input.drop r.offset).take (encLen l).length = encLen l ∧
+      r'.offset = r.offset + (encLen l).length) :=
+  ⟨fun _ _ _ _ hd hn hmax => lengthDecode_encLen hd hn hmax,
+   fun r h hb l r' hr => by
+     obtain ⟨h1, h2, h3⟩ := lengthDecode_spec h hb hr
+     exact ⟨h1, h3, h2.off⟩⟩
+
+open Codec.Der in
+/-- **truncation is refused**: every strict prefix of an element is an error (never a value, never a panic) -/
+theorem der_truncated_rejected (tag : Nat) (v : List Nat) (hbytes : ∀ b ∈ encTlv tag v, b < 256) (k : Nat)
+    (hk : k < (encTlv tag v).length) : ∃ e, fromDerAny ((encTlv tag v).take k) = .error e ∧ e ≠ .panic :=
+  fromDerAny_truncated hbytes k hk
+example : ∀ b ∈ Codec.Der.encTlv 0x04 [1, 2, 3], b < 256 := by decide
+
+open Codec.Der in
+/-- **iteration over a sequence terminates and consumes strictly**: the `while !is_finished() { AnyRef::decode }`
+loop (`MatterDnAttrs::parse`, `ParsedExtensionFields::parse`), started with fuel `|input| + 1`, never runs out
+of fuel and never panics — both on a plain reader (`seqItems`) and inside `reader.sequence(…)` + `finish`
+(`sequenceItems`, the shape of every `decode_value`); all item values are ranges of the input -/
+theorem der_sequence_iteration_total (bytes : List Nat) :
+    (match seqItems bytes with
+      | .error (e, _) => e ≠ .panic ∧ e ≠ .endless
+      | .ok l => ∀ it ∈ l, Within bytes it.2) ∧
+    (match sequenceItems bytes with
+      | .error e => e ≠ .panic ∧ e ≠ .endless
+      | .ok l => ∀ it ∈ l, Within bytes it.2) :=
+  ⟨seqItems_spec bytes, sequenceItems_spec bytes⟩
+example : Codec.Der.sequenceItems [0x30, 5, 2, 1, 5, 5, 0] = .ok [(2, [5]), (5, [])] := rfl
+
+open Codec.Der in
+/-- **`cert/der_utils.rs` is total**: `ecdsa_der_to_raw` and `copy_integer_to_fixed` never panic (the
+`src[0]`, `&src[1..]`, `target.len() - src.len()`, `target[..offset]`, `copy_from_slice` of the Rust code are
+checked operations in the model) and the zero-stripping loop terminates; `copy_integer_to_fixed` answers
+`Invalid` exactly when the stripped integer does not fit, else the integer right-aligned in `n` bytes -/
+theorem ecdsa_der_total (der integer : List Nat) (n : Nat) :
+    Safe (ecdsaDerToRaw der) ∧ Safe (copyIntegerToFixed n integer) ∧
+    copyIntegerToFixed n integer =
+      (if (stripZeros integer).length > n then .error .invalid else .ok (padLeft n (stripZeros integer))) ∧
+    (∀ out, copyIntegerToFixed n integer = .ok out → out.length = n) :=
+  ⟨ecdsaDerToRaw_safe der, copyIntegerToFixed_safe n integer, copyIntegerToFixed_eq n integer,
+   fun _ h => copyIntegerToFixed_length h⟩
+
+open Codec.Der in
+/-- **signature round trip**: the DER `SEQUENCE { INTEGER r, INTEGER s }` of two minimal big-endian
+magnitudes of at most 32 bytes decodes to `r‖s`, each half left-padded to 32 bytes -/
+theorem ecdsa_der_roundtrip (r s : List Nat) (hr : Canon 32 r) (hs : Canon 32 s) :
+    ecdsaDerToRaw (encSig r s) = .ok (padLeft 32 r ++ padLeft 32 s) :=
+  ecdsaDerToRaw_encSig hr hs
+example : Codec.Der.Canon 32 [0x43, 0xa6, 0x3f] ∧ Codec.Der.Canon 32 [] ∧ Codec.Der.Canon 32 (List.replicate 32 0xff) := by
+  refine ⟨⟨by decide, by decide, by decide⟩, ⟨by decide, by decide, by decide⟩, ⟨by decide, by decide, by decide⟩⟩
+
+open Codec.Der in
+/-- **`CmsSignedData::parse` (`attest/cd.rs`) is total and returns sub-slices of the message**: on arbitrary
+bytes the model never panics and never runs out of fuel; when it succeeds, `signer_key_id` (exactly 20 bytes)
+and `cd_content` are the ranges `[kidOff, kidOff + 20)` and `[cdOff, cdOff + |cd|)` of the message, and the
+raw signature has 64 bytes. (`ObjectIdentifier` / `u8` decoding of the `der` crate enter by their acceptance
+condition only, see `Model/Codec/CmsCd.lean`.) -/
+theorem cms_parse_total_and_within (msg : List Nat) :
+    Safe (cmsParse msg) ∧
+    ∀ c, cmsParse msg = .ok c →
+      c.kidOff + c.kid.length ≤ msg.length ∧ c.kid = (msg.drop c.kidOff).take c.kid.length ∧
+      c.cdOff + c.cd.length ≤ msg.length ∧ c.cd = (msg.drop c.cdOff).take c.cd.length ∧
+      c.kid.length = 20 ∧ c.sig.length = 64 := by
+  obtain ⟨hs, hq⟩ := cmsParse_post msg
+  refine ⟨hs, fun c hc => ?_⟩
+  obtain ⟨⟨a1, a2⟩, ⟨b1, b2⟩, h3, h4⟩ := hq c hc
+  exact ⟨a1, a2, b1, b2, h3, h4⟩
+set_option maxRecDepth 100000 in
+/-- non-vacuity (a test): the model encoder's output is parsed, with the fields that were encoded -/
+example : (match Codec.Der.cmsParse (Codec.Der.encCms [0x15, 0x18] (List.replicate 20 7) [5] [6]) with
+    | .ok c => c.kid == List.replicate 20 7 && c.kidOff == 63 && c.cd == [0x15, 0x18] && c.cdOff == 52 &&
+        c.sig == List.replicate 31 0 ++ [5] ++ List.replicate 31 0 ++ [6]
+    | .error _ => false) = true := by decide
+
+open Codec.Der in
+/-- **CMS round trip**: `CmsSignedData::parse` of the Matter CD envelope (RFC 5652 profile of `cd.rs`) built by
+the model encoder from a CD content, a 20-byte signer key identifier and a signature `(r, s)` (minimal magnitudes of
+at most 32 bytes) returns exactly the key identifier, the content and `pad32 r ‖ pad32 s`. The content bytes are
+arbitrary (any TLV, any length up to `Length::MAX`). -/
+theorem cms_parse_encode (content kid r s : List Nat) (hk : kid.length = 20) (hr : Canon 32 r) (hs : Canon 32 s)
+    (hmax : (encCms content kid r s).length ≤ MAX_LEN) :
+    ∃ c, cmsParse (encCms content kid r s) = .ok c ∧ c.kid = kid ∧ c.cd = content ∧
+      c.sig = padLeft 32 r ++ padLeft 32 s :=
+  cmsParse_encCms hk hr hs hmax
+set_option maxRecDepth 100000 in
+example : (List.replicate 20 7).length = 20 ∧ Codec.Der.Canon 32 [5] ∧
+    (Codec.Der.encCms [0x15, 0x18] (List.replicate 20 7) [5] [6]).length ≤ Codec.Der.MAX_LEN :=
+  ⟨by decide, ⟨by decide, by decide, by decide⟩, by decide⟩
 
 end C17
